@@ -589,11 +589,18 @@ def accept(R, RID='C01.accept'):
             for x in walk_no_nested(t.ast):
                 if not isinstance(x, ast.Name):
                     continue
+                # (the marker tests `== 126`, `>= 126`, `== 127` legitimately read the 7-bit field; a size rule compares
+                #  with 125 or with a large bound)
                 e, n0 = x, t
                 if x.id != lv:
                     e, n0 = rd.origin(t, x)          # a flag computed earlier: judged where it was computed
                     if e is x or lv not in {y.id for y in walk_no_nested(e) if isinstance(y, ast.Name)}:
                         continue
+                consts = [fold(R, c_, g.ctx) for cmp_ in walk_no_nested(e if e is not x else t.ast)
+                          if isinstance(cmp_, ast.Compare) for c_ in [cmp_.left] + list(cmp_.comparators)]
+                consts = [c_ for c_ in consts if isinstance(c_, int) and not isinstance(c_, bool)]
+                if not any(c_ == 125 or c_ >= (1 << 16) for c_ in consts):
+                    continue
                 nt += 1
                 ok = rd.defs_at(n0, lv) == final
                 R.ob(RID, 'size rule `%s` reads the decoded length' % U(t.ast)[:50], ok,
@@ -609,15 +616,27 @@ def accept(R, RID='C01.accept'):
             and any(t.kind == 'ctor' and t.cls in ('frame.Frame', 'frame.CompressedFrame')
                     for t in R.types.call_targets(n.ast.value, g.ctx))]
     fv = U(cons[0].ast.targets[0]) if cons else 'frame'
+    need(cons, 'FrameParser.parse: frame construction not found')
     hdr = [n for n in g.live_nodes() if n.kind == 'stmt' and isinstance(n.ast, ast.Assign) and isinstance(n.ast.value, ast.Yield)
-           and isinstance(n.ast.targets[0], ast.Tuple) and len(n.ast.targets[0].elts) == 2]
+           and isinstance(n.ast.value.value, ast.Call) and n.ast.value.value.args
+           and fold(R, n.ast.value.value.args[0], g.ctx) == 2 and g.dominates(n, cons[0])
+           and any(fr.kind == 'loop' for fr in n.frames)]
     need(hdr, 'FrameParser.parse: header read not found')
+    hdr = [h for h in hdr if not any(o is not h and g.dominates(h, o) for o in hdr)] or hdr     # the one nearest the frame
+    # names that carry the payload length: the read count and whatever it is copied from / to
+    lnames = {lv}
+    for _ in range(3):
+        for n_ in g.live_nodes():
+            if n_.kind == 'stmt' and isinstance(n_.ast, ast.Assign) and len(n_.ast.targets) == 1:
+                t_, v_ = n_.ast.targets[0], n_.ast.value
+                if isinstance(t_, ast.Name) and isinstance(v_, ast.Name) and (t_.id in lnames or v_.id in lnames):
+                    lnames |= {t_.id, v_.id}
     for rn in g.live_nodes():
         if not (rn.kind == 'stmt' and isinstance(rn.ast, ast.Raise)):
             continue
         bad = []
         for l in path_conditions(R, g, rd, hdr[0], rn):
-            lo, hi = interval_of(R, g.ctx, l, lv)
+            lo = max(interval_of(R, g.ctx, l, nm_)[0] for nm_ in sorted(lnames))
             ctl = ('%s.opcode >= 8' % fv, True) in l or ('opcode >= 8', True) in l
             if not ((ctl and lo >= 126) or lo >= (1 << 63)):
                 bad.append((lo, sorted(l)[:5]))
